@@ -3,3 +3,6 @@ import JominiModel.Props.C12
 #print axioms Jomini.Props.C12.C12_win1252
 #print axioms Jomini.Props.C12.C12_borrowed
 #print axioms Jomini.Props.C12.C12_win1252_borrowed_iff
+#print axioms Jomini.Props.C12.C12_utf8
+#print axioms Jomini.Props.C12.C12_valid
+#print axioms Jomini.Props.C12.C12_utf8_borrowed_sound
